@@ -3,6 +3,7 @@ package metadata
 import (
 	"fmt"
 	"go/ast"
+	"reflect"
 	"strings"
 
 	"github.com/gopher-fleece/gleece/v2/common"
@@ -36,6 +37,18 @@ func (f FieldMeta) Reduce(_ ReductionContext) (definitions.FieldMetadata, error)
 		IsEmbedded:  f.IsEmbedded,
 		Deprecation: common.Ptr(GetDeprecationOpts(f.Annotations)),
 	}, nil
+}
+
+// IsJsonVisible tells whether encoding/json emits the field at all
+func (f FieldMeta) IsJsonVisible() bool {
+	if !ast.IsExported(f.Name) {
+		return false
+	}
+	if fieldNode, ok := f.Node.(*ast.Field); ok && fieldNode != nil && fieldNode.Tag != nil {
+		tag := reflect.StructTag(strings.Trim(fieldNode.Tag.Value, "`"))
+		return tag.Get("json") != "-"
+	}
+	return true
 }
 
 func (m TypeUsageMeta) IsUniverseType() bool {
